@@ -162,6 +162,43 @@ func c17Valid(tier string) []string {
 		`p:a`, `p:a/q:b`, `@p:a`, `child::p:a`, `p:*`, `//p:a[@q:b = 'x']`, `a[@b = "it's"]`, `a[. = 'say "x"']`, `/`, `/a`, `//a`, `a/b//c/@d`, `../a`, `./a`, `a/..`,
 		`ancestor::a[1]`, `following-sibling::*[last()]`, `descendant-or-self::node()/a`, `self::a`, `attribute::*`, `parent::a/child::b`, `preceding::text()`,
 		`a + b - c`, `a * b div c mod d`, `a = b != c`, `a < b <= c > d >= e`, `a or b and c`, `- a`, `--a`, `1`, `1.5`, `.5`, `'s'`, `"s"`)
+	// a nested call, a path with an explicit axis and a prefixed name in EVERY
+	// argument position of every function (damage inside an argument must not
+	// be swallowed by the enclosing call)
+	fill := []string{"a", "1", "'s'"}
+	nested := []string{"count(b)", "string-length(b)", "child::c", "name(c)", "p:d", "concat('x', 'y')", "b[count(c) > 1]"}
+	var fnames []string
+	for n := range ref.Arity {
+		fnames = append(fnames, n)
+	}
+	for i := 1; i < len(fnames); i++ {
+		for j := i; j > 0 && fnames[j-1] > fnames[j]; j-- {
+			fnames[j-1], fnames[j] = fnames[j], fnames[j-1]
+		}
+	}
+	for _, fn := range fnames {
+		ar := ref.Arity[fn]
+		max := ar[1]
+		if max < 0 {
+			max = 3
+		}
+		for n := ar[0]; n <= max; n++ {
+			for pos := 0; pos < n; pos++ {
+				for ni, ne := range nested {
+					if tier != "thorough" && (pos+ni)%2 == 1 {
+						continue
+					}
+					args := make([]string, n)
+					for k := range args {
+						args[k] = fill[k%len(fill)]
+					}
+					args[pos] = ne
+					call := fn + "(" + strings.Join(args, ", ") + ")"
+					out = append(out, call, "//a["+call+"]")
+				}
+			}
+		}
+	}
 	return out
 }
 
